@@ -51,8 +51,11 @@ def decorate(rng, cat):
         return cat.upper() + "-SBJ"
     if r < 0.8:
         return cat.upper() + "-SBJ-1"
-    if r < 0.9:
+    if r < 0.86:
         return cat.upper() + "=2"
+    if r < 0.95:
+        # every combination of decorations in the documented order: function, gap index, co-index, head mark
+        return cat.upper() + rng.choice(["=2-1", "-1", "-12", "=23-10", "-SBJ=2-1", "-LOC-PRD=3", "=2-1'", "-1'"])
     return cat
 
 
